@@ -39,6 +39,9 @@ def agent_main(conn):
                 del handles[cmd[1]]
                 gc.collect()
                 res = None
+            elif op == 'dropfast':
+                del handles[cmd[1]]
+                res = None
             elif op == 'dropall':
                 handles.clear()
                 gc.collect()
@@ -97,7 +100,12 @@ def call_method(h, name, args):
         try:
             pickle.dumps(v)
         except Exception:
-            v = ('UNPICKLABLE', type(v).__name__)
+            try:
+                lv = list(v)
+                pickle.dumps(lv)
+            except Exception:
+                lv = None
+            v = ('UNPICKLABLE', type(v).__name__, lv)
         return ('value', v)
     except Exception as e:
         from mpservice.multiprocessing.remote_exception import get_remote_traceback, is_remote_exception
@@ -166,6 +174,8 @@ class LocalAgent:
         elif op == 'drop':
             del h[cmd[1]]
             gc.collect()
+        elif op == 'dropfast':
+            del h[cmd[1]]
         elif op == 'dropall':
             h.clear()
             gc.collect()
